@@ -491,7 +491,19 @@ def r7_oneshot_reopen(ctx):
     return out
 
 
+def r8_kernel_scoping(ctx):
+    """Kernel backend: every openat2 lookup of the resolver is scoped (RESOLVE_IN_ROOT|RESOLVE_NO_MAGICLINKS surely set)."""
+    from .c05 import r4_resolve_masks
+    out = []
+    for i in r4_resolve_masks(ctx):
+        if "resolvers::openat2::" in i.key:
+            i.rule = "C02.R8"
+            out.append(i)
+    return out
+
+
 RULES = [
+    ("C02.R8", r8_kernel_scoping, 2, False),
     ("C02.R1", r1_verify_after_dotdot, 3, False),
     ("C02.R2", r2_verify_before_complete, 3, False),
     ("C02.R3", r3_check_current_fail_closed, 3, False),
